@@ -68,8 +68,16 @@ def seed() -> int:
 
 
 def ensure_repo_on_path() -> None:
+    """Import pytato from REPO (default /repo; PTVERIF_REPO selects a scratch
+    worktree for mutation experiments) in this process and in children."""
     if REPO not in sys.path:
         sys.path.insert(0, REPO)
+    pp = [p for p in os.environ.get("PYTHONPATH", "").split(os.pathsep) if p]
+    for d in (VERIF, REPO):
+        if d in pp:
+            pp.remove(d)
+        pp.insert(0, d)
+    os.environ["PYTHONPATH"] = os.pathsep.join(pp)
 
 
 def sha(obj: Any) -> str:
